@@ -6,6 +6,7 @@ import inspect
 
 from typing import TYPE_CHECKING, Any
 
+from hypergraph.exceptions import IncompatibleRunnerError
 from hypergraph.runners._shared.helpers import (
     map_inputs_to_func_params,
     wrap_outputs,
@@ -45,6 +46,16 @@ class SyncFunctionNodeExecutor:
 
         # Call the function
         result = node.func(**func_inputs)
+
+        # A plain function that hands back a coroutine (an async def behind a sync
+        # wrapper) needs an event loop: AsyncRunner awaits it, this runner cannot.
+        if inspect.iscoroutine(result):
+            result.close()
+            raise IncompatibleRunnerError(
+                f"Node '{node.name}' returned a coroutine, which SyncRunner cannot await. Use AsyncRunner instead.",
+                node_name=node.name,
+                capability="supports_async_nodes",
+            )
 
         # Handle generators - accumulate to list. A plain function that returns a
         # generator object is treated like a generator function, as the async
